@@ -712,9 +712,9 @@ theorem vals_merged (hop skip : List Str) (hc : CanonicalNames hop) (repl : Str 
     · simp [h2]
     · cases hs : skip.contains k
       · by_cases hsv : k = sServer
-        · simp [h2, hs, hsv]
+        · simp [h2, hsv]
         · have : (k == sServer) = false := by simp [hsv]
-          simp [h2, hs, hsv, this]
+          simp [h2, hsv, this]
       · simp [h2, hs]
 
 theorem vals_respond (hop skip : List Str) (hc : CanonicalNames hop) (repl : Str → Str) (down : Rules) (pre : Hdr)
@@ -736,5 +736,335 @@ theorem vals_respond (hop skip : List Str) (hc : CanonicalNames hop) (repl : Str
 
 theorem respond_status (hop skip : List Str) (repl : Str → Str) (down : Rules) (pre : Hdr) (res : Response) :
     (respond hop skip repl down pre res).status = res.status := rfl
+
+/-! ### trailers -/
+
+/-- setting distinct raw keys one after the other: each key gets its own value list -/
+theorem foldl_setRaw (f : Str → Str) (g : Str → List Str) (ks : List Str) (hnd : ks.Nodup)
+    (hinj : ∀ a ∈ ks, ∀ b ∈ ks, f a = f b → a = b) (d : Hdr) (k' : Str) :
+    ((ks.foldl (fun d k => d.setRaw (f k) (g k)) d).vals k' =
+      match ks.find? (fun k => f k == k') with
+      | some k => g k
+      | none => d.vals k') ∧
+    ((ks.foldl (fun d k => d.setRaw (f k) (g k)) d).has k' =
+      ((ks.find? (fun k => f k == k')).isSome || d.has k')) := by
+  induction ks generalizing d with
+  | nil => simp
+  | cons k ks ih =>
+    have hnd' := List.nodup_cons.mp hnd
+    have hinj' : ∀ a ∈ ks, ∀ b ∈ ks, f a = f b → a = b :=
+      fun a ha b hb => hinj a (List.mem_cons_of_mem _ ha) b (List.mem_cons_of_mem _ hb)
+    obtain ⟨i1, i2⟩ := ih hnd'.2 hinj' (d.setRaw (f k) (g k))
+    simp only [List.foldl_cons]
+    rw [i1, i2, Hdr.vals_setRaw, Hdr.has_setRaw]
+    by_cases hk : f k = k'
+    · -- no later key maps to k'
+      have hnone : ks.find? (fun x => f x == k') = none := by
+        rw [List.find?_eq_none]
+        intro x hx hfx
+        have : f x = k' := by simpa using hfx
+        have := hinj x (List.mem_cons_of_mem _ hx) k (List.mem_cons_self ..) (by rw [this, hk])
+        subst this
+        exact hnd'.1 hx
+      simp [List.find?, hk, hnone]
+    · have hk' : (f k == k') = false := by simp [hk]
+      have hk2 : ¬ k' = f k := fun h => hk h.symm
+      simp [List.find?, hk', hk2]
+
+/-- adding the value lists of distinct keys: each target key gets its list appended -/
+theorem foldl_addAll (key : Str → Str) (val : Str → List Str) (ks : List Str) (hnd : ks.Nodup)
+    (hinj : ∀ a ∈ ks, ∀ b ∈ ks, key a = key b → a = b) (hc : ∀ a ∈ ks, canon (key a) = key a) (t : Hdr) (k' : Str) :
+    (ks.foldl (fun t k => (val k).foldl (fun t x => t.add (key k) x) t) t).vals k' =
+      t.vals k' ++ (match ks.find? (fun k => key k == k') with
+        | some k => val k
+        | none => []) := by
+  induction ks generalizing t with
+  | nil => simp
+  | cons k ks ih =>
+    have hnd' := List.nodup_cons.mp hnd
+    have hinj' : ∀ a ∈ ks, ∀ b ∈ ks, key a = key b → a = b :=
+      fun a ha b hb => hinj a (List.mem_cons_of_mem _ ha) b (List.mem_cons_of_mem _ hb)
+    simp only [List.foldl_cons]
+    rw [ih hnd'.2 hinj' (fun a ha => hc a (List.mem_cons_of_mem _ ha)),
+      (foldl_add (key k) (hc k (List.mem_cons_self ..)) (val k) t k').1]
+    by_cases hk : key k = k'
+    · have hnone : ks.find? (fun x => key x == k') = none := by
+        rw [List.find?_eq_none]
+        intro x hx hfx
+        have : key x = k' := by simpa using hfx
+        have := hinj x (List.mem_cons_of_mem _ hx) k (List.mem_cons_self ..) (by rw [this, hk])
+        subst this
+        exact hnd'.1 hx
+      subst hk
+      simp [List.find?, hnone]
+    · have hk' : (key k == k') = false := by simp [hk]
+      have hk2 : ¬ k' = key k := fun h => hk h.symm
+      simp [List.find?, hk', hk2]
+
+theorem foldl_addAll_hit (key : Str → Str) (val : Str → List Str) (ks : List Str) (hnd : ks.Nodup)
+    (hinj : ∀ a ∈ ks, ∀ b ∈ ks, key a = key b → a = b) (hc : ∀ a ∈ ks, canon (key a) = key a) (t : Hdr)
+    (k : Str) (hk : k ∈ ks) :
+    (ks.foldl (fun t k => (val k).foldl (fun t x => t.add (key k) x) t) t).vals (key k) = t.vals (key k) ++ val k := by
+  rw [foldl_addAll key val ks hnd hinj hc t (key k)]
+  cases hf : ks.find? (fun x => key x == key k) with
+  | none =>
+    rw [List.find?_eq_none] at hf
+    exact absurd (by simp) (hf k hk)
+  | some a =>
+    have ha := List.mem_of_find?_eq_some hf
+    have hka : key a = key k := by simpa using List.find?_some hf
+    rw [hinj a ha k hk hka]
+
+theorem foldl_addAll_miss (key : Str → Str) (val : Str → List Str) (ks : List Str) (hnd : ks.Nodup)
+    (hinj : ∀ a ∈ ks, ∀ b ∈ ks, key a = key b → a = b) (hc : ∀ a ∈ ks, canon (key a) = key a) (t : Hdr)
+    (k' : Str) (hk : ∀ a ∈ ks, key a ≠ k') :
+    (ks.foldl (fun t k => (val k).foldl (fun t x => t.add (key k) x) t) t).vals k' = t.vals k' := by
+  rw [foldl_addAll key val ks hnd hinj hc t k']
+  have : ks.find? (fun x => key x == k') = none := by
+    rw [List.find?_eq_none]
+    intro a ha h
+    exact hk a ha (by simpa using h)
+  rw [this]; simp
+
+theorem foldl_setRaw_hit (f : Str → Str) (g : Str → List Str) (ks : List Str) (hnd : ks.Nodup)
+    (hinj : ∀ a ∈ ks, ∀ b ∈ ks, f a = f b → a = b) (d : Hdr) (k : Str) (hk : k ∈ ks) :
+    (ks.foldl (fun d k => d.setRaw (f k) (g k)) d).vals (f k) = g k ∧
+    (ks.foldl (fun d k => d.setRaw (f k) (g k)) d).has (f k) = true := by
+  obtain ⟨i1, i2⟩ := foldl_setRaw f g ks hnd hinj d (f k)
+  rw [i1, i2]
+  cases hf : ks.find? (fun x => f x == f k) with
+  | none =>
+    rw [List.find?_eq_none] at hf
+    exact absurd (by simp) (hf k hk)
+  | some a =>
+    have ha := List.mem_of_find?_eq_some hf
+    have hka : f a = f k := by simpa using List.find?_some hf
+    rw [hinj a ha k hk hka]
+    simp
+
+theorem foldl_setRaw_miss (f : Str → Str) (g : Str → List Str) (ks : List Str) (hnd : ks.Nodup)
+    (hinj : ∀ a ∈ ks, ∀ b ∈ ks, f a = f b → a = b) (d : Hdr) (k' : Str) (hk : ∀ a ∈ ks, f a ≠ k') :
+    (ks.foldl (fun d k => d.setRaw (f k) (g k)) d).vals k' = d.vals k' ∧
+    (ks.foldl (fun d k => d.setRaw (f k) (g k)) d).has k' = d.has k' := by
+  obtain ⟨i1, i2⟩ := foldl_setRaw f g ks hnd hinj d k'
+  have : ks.find? (fun x => f x == k') = none := by
+    rw [List.find?_eq_none]
+    intro a ha h
+    exact hk a ha (by simpa using h)
+  rw [i1, i2, this]
+  simp
+
+theorem vals_map_pair (l : List Str) (h : Str → List Str) (k' : Str) :
+    Hdr.vals (l.map fun k => (k, h k)) k' = if k' ∈ l then h k' else [] := by
+  induction l with
+  | nil => simp [Hdr.vals_nil]
+  | cons x xs ih =>
+    simp only [List.map_cons]
+    rw [Hdr.vals_cons, ih]
+    by_cases hx : x = k'
+    · subst hx; simp
+    · have : ¬ k' = x := fun h => hx h.symm
+      simp [hx, this]
+
+theorem hasPrefix_append (p k : Str) : hasPrefix (p ++ k) p = true := by
+  unfold hasPrefix
+  exact List.isPrefixOf_iff_prefix.mpr (List.prefix_append p k)
+
+theorem drop_prefix (p k : Str) : (p ++ k).drop p.length = k := by simp
+
+theorem of_hasPrefix (k p : Str) (h : hasPrefix k p = true) : p ++ k.drop p.length = k := by
+  unfold hasPrefix at h
+  obtain ⟨t, ht⟩ := List.isPrefixOf_iff_prefix.mp h
+  subst ht; simp
+
+/-- the response header map of `respond` before the `Trailer` announcement is written -/
+def mergedHeader (hop skip : List Str) (repl : Str → Str) (down : Rules) (pre : Hdr) (res : Response) : Hdr :=
+  copyHeader skip pre (applyRules repl (stripHop hop res.header) down)
+
+/-- Side conditions of the trailer theorem: what net/http guarantees about `res.Trailer`, and that
+trailer names and header names do not collide. -/
+structure TrailerSide (merged : Hdr) (res : Response) : Prop where
+  /-- trailer keys are canonical and carry at least one value -/
+  tgood : Good res.trailer
+  /-- no trailer is itself called `Trailer` or `Trailer:…` -/
+  tplain : ∀ k ∈ res.trailer.keys, hasPrefix k sTrailerPrefix = false ∧ k ≠ sTrailer
+  /-- announced keys are keys of the final trailer map (net/http only adds keys) … -/
+  annKeys : ∀ k ∈ res.announced, k ∈ res.trailer.keys
+  /-- … so equally many keys means the same keys -/
+  annAll : res.trailer.keys.length = res.announced.length → ∀ k ∈ res.trailer.keys, k ∈ res.announced
+  /-- no response header has a `Trailer:`-prefixed name or the name of a trailer; without announced
+  trailers there is no stray `Trailer` header (from the ResponseWriter or a rule) either -/
+  hdrPlain : ∀ k, merged.has k = true → hasPrefix k sTrailerPrefix = false
+  hdrNoTrailerName : ∀ k ∈ res.trailer.keys, merged.has k = false
+  noStray : res.announced = [] → merged.vals sTrailer = []
+
+theorem prefix_inj (a b : Str) (h : sTrailerPrefix ++ a = sTrailerPrefix ++ b) : a = b :=
+  List.append_cancel_left h
+
+theorem sTrailer_not_prefixed : hasPrefix sTrailer sTrailerPrefix = false := by decide
+
+theorem clientTrailers_respond (hop skip : List Str) (repl : Str → Str) (down : Rules) (pre : Hdr) (res : Response)
+    (hs : TrailerSide (mergedHeader hop skip repl down pre res) res) (k' : Str) :
+    (clientTrailers (respond hop skip repl down pre res)).vals k' = res.trailer.vals k' := by
+  have hK : res.trailer.keys.Nodup := nodup_dedup _
+  have hcanonK : ∀ a ∈ res.trailer.keys, canon a = a := by
+    intro a ha
+    rw [mem_keys, Hdr.has, List.any_eq_true] at ha
+    obtain ⟨e, he, hea⟩ := ha
+    have hx : e.1 = a := by simpa using hea
+    rw [← hx]; exact hs.tgood.1 e he
+  have hTnot : ∀ k, k ∉ res.trailer.keys → res.trailer.vals k = [] := by
+    intro k hk
+    apply vals_of_not_has
+    cases hh : res.trailer.has k with
+    | false => rfl
+    | true => exact absurd ((mem_keys _ _).mpr hh) hk
+  unfold clientTrailers respond
+  simp only
+  generalize hm : copyHeader skip pre (applyRules repl (stripHop hop res.header) down) = merged
+  have hs' : TrailerSide merged res := by rw [← hm]; exact hs
+  -- the header map at WriteHeader
+  generalize hsnap : (if res.announced.length > 0 then merged.setRaw sTrailer res.announced else merged) = snap
+  have snapHas : ∀ k, snap.has k = true → hasPrefix k sTrailerPrefix = false := by
+    intro k hk
+    rw [← hsnap] at hk
+    by_cases ha : res.announced.length > 0
+    · simp only [ha, if_true] at hk
+      rw [Hdr.has_setRaw] at hk
+      by_cases hkt : k = sTrailer
+      · rw [hkt]; exact sTrailer_not_prefixed
+      · simp only [hkt, decide_false, Bool.false_or] at hk
+        exact hs'.hdrPlain k hk
+    · simp only [ha, if_false] at hk
+      exact hs'.hdrPlain k hk
+  have snapNoT : ∀ k ∈ res.trailer.keys, snap.has k = false := by
+    intro k hk
+    rw [← hsnap]
+    by_cases ha : res.announced.length > 0
+    · simp only [ha, if_true]
+      rw [Hdr.has_setRaw]
+      have := (hs'.tplain k hk).2
+      simp [this, hs'.hdrNoTrailerName k hk]
+    · simp only [ha, if_false]
+      exact hs'.hdrNoTrailerName k hk
+  have snapTrailer : snap.vals sTrailer = res.announced := by
+    rw [← hsnap]
+    by_cases ha : res.announced.length > 0
+    · simp only [ha, if_true]; rw [Hdr.vals_setRaw]; simp
+    · simp only [ha, if_false]
+      have : res.announced = [] := by
+        cases hl : res.announced with
+        | nil => rfl
+        | cons x xs => rw [hl] at ha; simp at ha
+      rw [this]; exact hs'.noStray this
+  rw [snapTrailer]
+  by_cases hforce : (res.trailer.keys.length != res.announced.length) = true
+  · -- unannounced trailers: every key is sent with the prefix
+    simp only [hforce, shallowCopyTrailers, if_true]
+    have hinj : ∀ a ∈ res.trailer.keys, ∀ b ∈ res.trailer.keys,
+        sTrailerPrefix ++ a = sTrailerPrefix ++ b → a = b := fun a _ b _ h => prefix_inj a b h
+    generalize hfin : res.trailer.keys.foldl (fun d k => d.setRaw (sTrailerPrefix ++ k) (res.trailer.vals k)) snap = final
+    have finHit : ∀ k ∈ res.trailer.keys, final.vals (sTrailerPrefix ++ k) = res.trailer.vals k ∧
+        final.has (sTrailerPrefix ++ k) = true := by
+      intro k hk
+      rw [← hfin]
+      exact foldl_setRaw_hit (fun k => sTrailerPrefix ++ k) res.trailer.vals _ hK hinj snap k hk
+    have finMiss : ∀ k, (∀ a ∈ res.trailer.keys, sTrailerPrefix ++ a ≠ k) → final.has k = snap.has k := by
+      intro k hk
+      rw [← hfin]
+      exact (foldl_setRaw_miss (fun k => sTrailerPrefix ++ k) res.trailer.vals _ hK hinj snap k hk).2
+    -- nothing is delivered through the announced names
+    have hann : (res.announced.filter fun k => final.has k) = [] := by
+      rw [List.filter_eq_nil_iff]
+      intro k hk
+      have hkK := hs'.annKeys k hk
+      have hnp := (hs'.tplain k hkK).1
+      rw [finMiss k (by
+        intro a _ h
+        rw [← h, hasPrefix_append] at hnp
+        cases hnp)]
+      simp [snapNoT k hkK]
+    rw [hann]
+    simp only [List.map_nil]
+    -- the prefixed keys of the final map are exactly the prefixed trailer names
+    have hP : ∀ a ∈ final.keys.filter (fun k => hasPrefix k sTrailerPrefix),
+        ∃ k0 ∈ res.trailer.keys, a = sTrailerPrefix ++ k0 := by
+      intro a ha
+      rw [List.mem_filter, mem_keys] at ha
+      obtain ⟨hhas, hpre⟩ := ha
+      by_cases hex : ∃ k0 ∈ res.trailer.keys, sTrailerPrefix ++ k0 = a
+      · obtain ⟨k0, hk0, rfl⟩ := hex
+        exact ⟨k0, hk0, rfl⟩
+      · have : final.has a = snap.has a := finMiss a (by
+          intro x hx h
+          exact hex ⟨x, hx, h⟩)
+        rw [this] at hhas
+        rw [snapHas a hhas] at hpre
+        cases hpre
+    have hPnd : (final.keys.filter (fun k => hasPrefix k sTrailerPrefix)).Nodup :=
+      List.Nodup.sublist List.filter_sublist (nodup_dedup _)
+    have hPinj : ∀ a ∈ final.keys.filter (fun k => hasPrefix k sTrailerPrefix),
+        ∀ b ∈ final.keys.filter (fun k => hasPrefix k sTrailerPrefix),
+        a.drop sTrailerPrefix.length = b.drop sTrailerPrefix.length → a = b := by
+      intro a ha b hb h
+      obtain ⟨a0, _, rfl⟩ := hP a ha
+      obtain ⟨b0, _, rfl⟩ := hP b hb
+      rw [drop_prefix, drop_prefix] at h
+      rw [h]
+    have hPc : ∀ a ∈ final.keys.filter (fun k => hasPrefix k sTrailerPrefix),
+        canon (a.drop sTrailerPrefix.length) = a.drop sTrailerPrefix.length := by
+      intro a ha
+      obtain ⟨a0, ha0, rfl⟩ := hP a ha
+      rw [drop_prefix]; exact hcanonK a0 ha0
+    by_cases hk : k' ∈ res.trailer.keys
+    · have hmem : sTrailerPrefix ++ k' ∈ final.keys.filter (fun k => hasPrefix k sTrailerPrefix) := by
+        rw [List.mem_filter, mem_keys]
+        exact ⟨(finHit k' hk).2, hasPrefix_append _ _⟩
+      have := foldl_addAll_hit (fun k => k.drop sTrailerPrefix.length) final.vals _ hPnd hPinj hPc [] _ hmem
+      simp only [drop_prefix] at this
+      rw [this, (finHit k' hk).1]
+      simp [Hdr.vals_nil]
+    · rw [foldl_addAll_miss (fun k => k.drop sTrailerPrefix.length) final.vals _ hPnd hPinj hPc [] k' (by
+        intro a ha h
+        obtain ⟨a0, ha0, rfl⟩ := hP a ha
+        rw [drop_prefix] at h
+        exact hk (h ▸ ha0))]
+      rw [hTnot k' hk]; rfl
+  · -- all trailers were announced: they are delivered under their own names
+    have hlen : res.trailer.keys.length = res.announced.length := by simpa using hforce
+    simp only [hforce, shallowCopyTrailers, Bool.false_eq_true, if_false]
+    have hinj : ∀ a ∈ res.trailer.keys, ∀ b ∈ res.trailer.keys, a = b → a = b := fun _ _ _ _ h => h
+    generalize hfin : res.trailer.keys.foldl (fun d k => d.setRaw k (res.trailer.vals k)) snap = final
+    have finHit : ∀ k ∈ res.trailer.keys, final.vals k = res.trailer.vals k ∧ final.has k = true := by
+      intro k hk
+      rw [← hfin]
+      exact foldl_setRaw_hit (fun k => k) res.trailer.vals _ hK hinj snap k hk
+    have finMiss : ∀ k, k ∉ res.trailer.keys → final.has k = snap.has k := by
+      intro k hk
+      rw [← hfin]
+      exact (foldl_setRaw_miss (fun k => k) res.trailer.vals _ hK hinj snap k (by
+        intro a ha h; exact hk (h ▸ ha))).2
+    have hann : (res.announced.filter fun k => final.has k) = res.announced := by
+      rw [List.filter_eq_self]
+      intro k hk
+      exact (finHit k (hs'.annKeys k hk)).2
+    rw [hann]
+    -- no prefixed key exists
+    have hPnil : final.keys.filter (fun k => hasPrefix k sTrailerPrefix) = [] := by
+      rw [List.filter_eq_nil_iff]
+      intro a ha
+      rw [mem_keys] at ha
+      by_cases hk : a ∈ res.trailer.keys
+      · simp [(hs'.tplain a hk).1]
+      · rw [finMiss a hk] at ha
+        simp [snapHas a ha]
+    rw [hPnil]
+    simp only [List.foldl_nil]
+    rw [vals_map_pair]
+    by_cases hk : k' ∈ res.trailer.keys
+    · have := hs'.annAll hlen k' hk
+      simp [this, (finHit k' hk).1]
+    · have : k' ∉ res.announced := fun h => hk (hs'.annKeys k' h)
+      simp [this, hTnot k' hk]
 
 end Casket.ProxyMsg
